@@ -97,6 +97,23 @@ def proc_untraced_waitpid(proc, hang, task=None, raise_child_process_error=False
         else:
             return info
 
+    # ``subprocess.Popen`` reaps the same child under its own lock (``poll()``
+    # / ``wait()``, e.g. from the ``PopenThread``).  Reap-and-record has to
+    # be one step with respect to it: a ``poll()`` that lands between our
+    # ``waitpid`` and the assignments below gets ``ECHILD`` and records 0,
+    # and whichever write comes last wins.
+    lock = getattr(getattr(proc, "proc", proc), "_waitpid_lock", None)
+    if lock is not None and not lock.acquire(blocking=bool(hang)):
+        # Popen is reaping this child right now and records the status itself.
+        return info
+    try:
+        return _proc_untraced_waitpid(proc, hang, task, raise_child_process_error, info)
+    finally:
+        if lock is not None:
+            lock.release()
+
+
+def _proc_untraced_waitpid(proc, hang, task, raise_child_process_error, info):
     try:
         """
         The WUNTRACED flag indicates that the caller wishes to wait for stopped or terminated
